@@ -113,11 +113,13 @@ def _run_base(cfg, rec):
                 elif op == "add-instantiated":
                     br.add_instantiated_plugin_to_registry([SHORTS[s]], PLUGINS[p].__class__ and _Inst[p], registry, "set_x_plugin")
                 elif op == "add-dotted":
-                    br.add_plugin_to_registry(SHORTS[s] + ".v2", PLUGINS[p], registry, "set_x_plugin")
+                    out["key"] = dotted_form(SHORTS[s], ctx.choose(len(DOT_FORMS), "dot_form"))
+                    br.add_plugin_to_registry(out["key"], PLUGINS[p], registry, "set_x_plugin")
                 elif op == "set":
                     br.set_plugin(SHORTS[s], full(PLUGINS[p]), registry, "name")
                 elif op == "set-dotted-key":
-                    br.set_plugin(SHORTS[s] + ".a", full(PLUGINS[p]), registry, "name")
+                    out["key"] = dotted_form(SHORTS[s], ctx.choose(len(DOT_FORMS), "dot_form"))
+                    br.set_plugin(out["key"], full(PLUGINS[p]), registry, "name")
                 elif op == "set-unknown":
                     br.set_plugin(SHORTS[s], ["nodots", "verif.plugins.unknown.Nope"][p % 2], registry, "name")
                 elif op == "get":
@@ -453,6 +455,14 @@ def concrete(cfg, env):
     return {"ok": True}
 
 
+DOT_FORMS = ("{s}.a", ".{s}", "{s}.", ".", "a..{s}", "{s}.v2")
+
+
+def dotted_form(short, k):
+    """Short names containing '.', in every position (inside, leading, trailing, alone, doubled)."""
+    return DOT_FORMS[k].format(s=short)
+
+
 def replay(data):
     """All variables are finite-domain: the symbolic run already executed the real code on the concrete pre-state
     selected by the model; re-running that pre-state concretely is the replay."""
@@ -480,6 +490,19 @@ def replay(data):
                 br.add_plugin_to_registry(SHORTS[s], PLUGINS[p], registry, "set_x_plugin")
             elif op == "set":
                 br.set_plugin(SHORTS[s], full(PLUGINS[p]), registry, "name")
+            elif op in ("set-dotted-key", "add-dotted"):
+                before_ = dict(registry)
+                key_ = dotted_form(SHORTS[s], val("dot_form"))
+                try:
+                    if op == "set-dotted-key":
+                        br.set_plugin(key_, full(PLUGINS[p]), registry, "name")
+                    else:
+                        br.add_plugin_to_registry(key_, PLUGINS[p], registry, "set_x_plugin")
+                    e_ = None
+                except Exception as ex_:  # noqa: BLE001
+                    e_ = ex_
+                return (not isinstance(e_, ValueError)) or registry != before_, (
+                    f"{op} with the short name {key_!r}: raised {e_!r}, registry keys {sorted(registry)} (before {sorted(before_)})")
             exc = None
         except Exception as ex:  # noqa: BLE001
             exc = ex
